@@ -332,17 +332,18 @@ theorem gpd_roundtrip_partial (ch : GpdFrameW → GpdFrameR) (hch : ∀ w, ch w 
 
 /--
 **KML.**  Under the object-tree contract: same order, same stored geometry, same time bounds, and the
-properties exactly as they were **plus `sub_folder_0` = folder name on every shape that had at least
-one property** (the known finding `parse_fastkml/sub_folder-property-added`, stated exactly).
+properties exactly as they were **plus `sub_folder_0` = folder name (`'Unnamed Folder'` for an empty
+name) on every shape that had at least one property** (the known finding
+`parse_fastkml/sub_folder-property-added`, stated exactly).
 The contract covers string values only (fastkml's `Data` takes strings: known finding for the rest).
 -/
 theorem kml_roundtrip_partial (ch : KNode → KNode) (hch : ∀ n, ch n = idealKml n)
     (name : String) (coll : List Shape) (hwf : ∀ s ∈ coll, KmlShapeWF s) :
     ∃ folder back, toFolder name coll = .ok folder ∧ fromFolder (ch folder) = .ok back ∧
-      List.Forall₂ (KmlBackRel name) coll back := by
+      List.Forall₂ (KmlBackRel (folderLabel (some name))) coll back := by
   have hpm : mapExcept toPlacemark coll = .ok (coll.map pmOf) :=
     mapExcept_ok toPlacemark pmOf coll (fun s hs => toPlacemark_ok (fromPlacemark_back name (hwf s hs)).1)
-  obtain ⟨bs, hbs, hrel⟩ := parseKids_pms name coll [] hwf
+  obtain ⟨bs, hbs, hrel⟩ := parseKids_pms (folderLabel (some name)) coll [] hwf
   refine ⟨.folder (some name) ((coll.map pmOf).map .pm), bs, ?_, ?_, hrel⟩
   · unfold toFolder
     rw [hpm]
@@ -350,7 +351,7 @@ theorem kml_roundtrip_partial (ch : KNode → KNode) (hch : ∀ n, ch n = idealK
   · rw [hch]
     unfold fromFolder idealKml parseNode
     have hkey : (s!"sub_folder_{(0 : Nat)}" : String) = "sub_folder_0" := by decide +kernel
-    simp only [hkey, Option.getD_some, dictSet, List.map_map]
+    simp only [hkey, dictSet, List.map_map]
     have : (coll.map (KNode.pm ∘ pmOf)) = coll.map fun s => KNode.pm (pmOf s) := rfl
     rw [this, hbs]
     rfl
